@@ -806,6 +806,16 @@ func (x *FnExec) evalCall(fr *frame, e *ECall, c *evalCtx) (Val, error) {
 		nc := *c
 		nc.inOld = true
 		return x.eval(fr, e.Args[0], &nc)
+	case "entry":
+		// entry(p): the value parameter p had when the function was entered (parameters may be reassigned)
+		if id, ok := e.Args[0].(*EIdent); ok && fr != nil {
+			for i, p := range fr.fn.Params {
+				if p.Name() == id.Name {
+					return fr.params[i], nil
+				}
+			}
+		}
+		return Val{}, fmt.Errorf("entry(): not a parameter")
 	case "len", "cap":
 		v, err := arg(0)
 		if err != nil {
